@@ -79,30 +79,41 @@ def _fuzz(tier, seed, res, sk):
     runs = 25000 if quick else 2500000
     nf = 4 if quick else 8
     rd = core.run_dir(PROP)
-    jobs = []
-    for i in range(nf):
-        cdir, adir = os.path.join(rd, "fz_corpus%d" % i), os.path.join(rd, "fz_art%d" % i)
-        os.makedirs(cdir, exist_ok=True)
-        os.makedirs(adir, exist_ok=True)
-        for f in glob.glob(os.path.join(core.VERIF, "corpus", PROP, "seed", "*")):
-            shutil.copy(f, cdir)
-        jobs.append(dict(cmd=[fz, "-seed=%d" % (seed * 131 + i), "-runs=%d" % runs, "-max_len=400", "-len_control=20", "-timeout=60",
-                              "-artifact_prefix=" + adir + "/", "-print_final_stats=0", "-verbosity=0", "-close_fd_mask=0", cdir],
-                         env=dict(sk, PARSEC_MCA_debug_verbose="0"), tag="fuzz", timeout=1200 if quick else None))
-    wr = core.run_workers(PROP, jobs)
-    res.absorb(wr, "fuzz")
-    for f in wr.failures:
-        res.violations.append(core.Violation("parser fuzzing: " + f["msg"], replay_text=f["replay_text"], ext="fuzz.txt"))
-    for c in wr.crashes:
-        tail = c["log_tail"]
-        if c["rc"] == "timeout" or (("slow-unit" in tail or "timeout" in tail or "out-of-memory" in tail) and "ERROR: AddressSanitizer" not in tail and "runtime error" not in tail):
-            res.coverage["fuzz_load_noise"] = res.coverage.get("fuzz_load_noise", 0) + 1
-            continue
-        key = [l for l in tail.splitlines() if "Assertion" in l or "ERROR: AddressSanitizer" in l or "runtime error" in l]
-        arts = glob.glob(os.path.join(rd, "fz_art*", "crash-*"))
-        data = open(arts[0], "rb").read() if arts else b""
-        res.violations.append(core.Violation("parser fuzzing: process died (rc=%s): %s" % (c["rc"], (key[0] if key else tail[-500:])[:400]),
-                                             replay_text="# libFuzzer input (byte0 = cores, byte1 = kind, rest = text): %r\n" % data, ext="fuzz.txt"))
+    rounds = 3     # a malformed map that the runtime rejects through parsec_fatal ends the fuzzing process (exit 250 after the
+    # diagnostic): that is a clean rejection, not a crash, so the worker is simply restarted on its corpus directory
+    for rnd in range(rounds):
+        jobs = []
+        for i in range(nf):
+            cdir, adir = os.path.join(rd, "fz_corpus%d" % i), os.path.join(rd, "fz_art%d_%d" % (i, rnd))
+            os.makedirs(cdir, exist_ok=True)
+            os.makedirs(adir, exist_ok=True)
+            if rnd == 0:
+                for f in glob.glob(os.path.join(core.VERIF, "corpus", PROP, "seed", "*")):
+                    shutil.copy(f, cdir)
+            jobs.append(dict(cmd=[fz, "-seed=%d" % (seed * 131 + i + 1000 * rnd), "-runs=%d" % (runs // rounds), "-max_len=400", "-len_control=20", "-timeout=60",
+                                  "-artifact_prefix=" + adir + "/", "-print_final_stats=0", "-verbosity=0", "-close_fd_mask=0", cdir],
+                             env=dict(sk, PARSEC_MCA_debug_verbose="0"), tag="fuzz", timeout=1200 if quick else None, adir=adir))
+        wr = core.run_workers(PROP, jobs)
+        res.absorb(wr, "fuzz")
+        for f in wr.failures:
+            res.violations.append(core.Violation("parser fuzzing: " + f["msg"], replay_text=f["replay_text"], ext="fuzz.txt"))
+        for c in wr.crashes:
+            tail = c["log_tail"]
+            if c["rc"] == "timeout" or (("slow-unit" in tail or "timeout" in tail or "out-of-memory" in tail) and "ERROR: AddressSanitizer" not in tail and "runtime error" not in tail):
+                res.coverage["fuzz_load_noise"] = res.coverage.get("fuzz_load_noise", 0) + 1
+                continue
+            sanitizer = "ERROR: AddressSanitizer" in tail or "runtime error" in tail or "Assertion" in tail
+            if c["rc"] == 250 and not sanitizer and ("\x1b[1;37;41mx@" in tail or "x@0" in tail):
+                # parsec_fatal: diagnostic printed, process ended with status -6: the documented way PaRSEC stops on an unusable map
+                res.coverage["fuzz_inputs_rejected_by_parsec_fatal"] = res.coverage.get("fuzz_inputs_rejected_by_parsec_fatal", 0) + 1
+                continue
+            key = [l for l in tail.splitlines() if "Assertion" in l or "ERROR: AddressSanitizer" in l or "runtime error" in l]
+            arts = glob.glob(os.path.join(jobs[c["worker"]]["adir"], "crash-*"))
+            data = open(arts[0], "rb").read() if arts else b""
+            res.violations.append(core.Violation("parser fuzzing: process died (rc=%s): %s" % (c["rc"], (key[0] if key else tail[-500:])[:400]),
+                                                 replay_text="# libFuzzer input (byte0 = cores, byte1 = kind, rest = text): %r\n" % data, ext="fuzz.txt"))
+        if res.violations:
+            break
 
 
 def replay(path):
